@@ -27,6 +27,11 @@ def _batch_op(x, how):
     k = how[0]
     if k == "index":
         return x[build_index(how[1])]
+    if k == "cindex":
+        # an index of the C03 grammar, rebuilt from its descriptors (bare range / list / numpy / tensor / mask, tuples, None, Ellipsis)
+        from . import c03
+        py = c03.to_py(how[1])
+        return x[py[0] if how[2] else py]
     if k == "permute":
         return x.permute(*how[1])
     if k == "transpose":
@@ -105,7 +110,10 @@ class Interp:
         self.outs = []
 
     def bs(self, r):
-        return list(self.regs[r].batch_size)
+        x = self.regs[r]
+        if isinstance(x, T()["torch"].Tensor):
+            return [x.shape[0]]       # a plain buffer: its rows are the "batch" the row views are taken from
+        return list(x.batch_size)
 
     def nb(self, r):
         n = 1
@@ -218,7 +226,8 @@ class Interp:
                 line = [Sym("lock"), ins["r"], bool(ins["b"])]
                 R[ins["r"]].lock_() if ins["b"] else R[ins["r"]].unlock_()
             elif k == "view":
-                pl = ins["how"][0] in ("permute", "transpose", "squeeze", "unsqueeze", "expand", "view", "unflatten")
+                pl = ins["how"][0] in ("permute", "transpose", "squeeze", "unsqueeze", "expand", "view", "unflatten") \
+                    and not isinstance(R[ins["r"]], torch.Tensor)
                 line = [Sym("view"), ins["r"], self.nb(ins["r"]), self.bsel(ins["r"], ins["how"]), pl]
                 try:
                     push = _batch_op(R[ins["r"]], ins["how"])
@@ -428,11 +437,25 @@ def gen_program(rng, n_hist, force=None):
 
     nested = rng.random() < 0.75
     dev = rng.choice([None, "cpu"])     # a tensordict with a device takes other code paths (_clone_recurse ...)
-    a = newt(bs)
-    b = newt(bs + ([0] if zf else [2]))
+    buffered = rng.random() < 0.5 and layout != "zerobatch"
+    sib = {}                            # leaf register -> register of a disjoint view of the same buffer (its sibling row)
+
+    def leaf(shape):
+        if not buffered:
+            return newt(shape)
+        # the entry is row 0 of a pre-allocated buffer, row 1 is kept as a handle: values that alias the entry's storage
+        buf = newt([2] + list(shape))
+        emit({"i": "view", "r": buf, "how": ["index", 0]})
+        l0 = len(it.regs) - 1
+        emit({"i": "view", "r": buf, "how": ["index", 1]})
+        sib[l0] = len(it.regs) - 1
+        return l0
+
+    a = leaf(bs)
+    b = leaf(bs + ([0] if zf else [2]))
     if nested:
-        c = newt(bs + [3])
-        d = newt(bs)
+        c = leaf(bs + [3])
+        d = leaf(bs)
         emit({"i": "newtd", "ents": [["d", d]], "bs": bs, "device": dev})
         m = len(it.regs) - 1
         emit({"i": "newtd", "ents": [["c", c], ["m", m]], "bs": bs, "device": dev})
@@ -443,6 +466,9 @@ def gen_program(rng, n_hist, force=None):
     else:
         emit({"i": "newtd", "ents": [["a", a], ["b", b]], "bs": bs, "device": dev})
     root = len(it.regs) - 1
+    leaf_reg = {("a",): a, ("b",): b}
+    if nested:
+        leaf_reg.update({("n", "c"): c, ("n", "m", "d"): d})
     if rng.random() < 0.15:
         emit({"i": "lock", "r": root, "b": True})
 
@@ -457,7 +483,7 @@ def gen_program(rng, n_hist, force=None):
     def all_paths(r):
         return [tuple(k.split("/")) for k in RF.keyset(it.regs[r])]
 
-    def src_like(r, paths, shape_of=None):
+    def src_like(r, paths, shape_of=None, alias=False):
         """a fresh source tensordict with the given leaf paths (nested nodes built bottom-up); returns its register"""
         tree = {}
         for p in paths:
@@ -473,7 +499,11 @@ def gen_program(rng, n_hist, force=None):
                     ents.append([k, build(v, sbs)])
                 else:
                     shp = shape_of(v) if shape_of else list(it.regs[r].get(v).shape)
-                    ents.append([k, fresh(shp)])
+                    lr = leaf_reg.get(tuple(v)) if (alias and r == root and not shape_of) else None
+                    if lr is not None and lr in sib and it.regs[lr] is it.regs[r].get(tuple(v)):
+                        ents.append([k, sib[lr]])      # the sibling row of the destination's own buffer
+                    else:
+                        ents.append([k, fresh(shp)])
             if rng.random() < 0.5:
                 ents = ents[::-1]
             # same device as the fixture: a value of another device is cast by _validate_value (a new node object; C01's subject)
@@ -481,6 +511,20 @@ def gen_program(rng, n_hist, force=None):
             return len(it.regs) - 1
         sbs = it.bs(r) if shape_of is None else shape_of(None)
         return build(tree, sbs)
+
+    def emit_cindex(r, bsr):
+        """an index of the C03 grammar; whether the model instruction is the sharing one (view) or the copying one (gather) is
+        decided by what TORCH does with this index on a plain tensor of the batch shape"""
+        idx, leaf_idx, descs, single = RF.c03_index(bsr, rng)
+        proxy = torch.arange(max(it.nb(r), 1)).reshape(bsr) if it.nb(r) else torch.zeros(bsr)
+        try:
+            res = proxy[idx]
+        except Exception:  # noqa: BLE001
+            return None                # torch rejects the index for the batch shape: C03's subject
+        if proxy.numel() == 0 or res.numel() == 0:
+            return None                # nothing to alias
+        shares = res.untyped_storage().data_ptr() == proxy.untyped_storage().data_ptr()
+        return emit({"i": "view" if shares else "gather", "r": r, "how": ["cindex", descs, single]})
 
     def gen_idx(r, adv):
         idx, basic = RF.gen_index(it.bs(r), rng, adv=adv)
@@ -494,7 +538,7 @@ def gen_program(rng, n_hist, force=None):
         ap = all_paths(r)
         kinds = ["unary_", "unary_", "binary_", "zero_", "fill_", "set_", "set_", "update_", "update_", "set_at_", "update_at_",
                  "setitem-scalar", "set", "set", "update", "del", "lock", "view", "view", "view", "select", "exclude", "shallow",
-                 "flatten-keys", "clone", "gather", "unary", "binary", "contiguous", "get", "set_missing"]
+                 "flatten-keys", "clone", "gather", "unary", "binary", "contiguous", "get", "set_missing", "cindex", "cindex"]
         k = kind or rng.choice(kinds)
         bsr = it.bs(r)
         if k in ("unary_", "unary", "zero_") and not lp:
@@ -515,11 +559,20 @@ def gen_program(rng, n_hist, force=None):
             if not ap:
                 return None
             return emit({"i": "fill_", "r": r, "p": list(rng.choice(ap)), "z": rng.choice([7, -9, 0])})
+        def alias_reg(p):
+            """a register whose tensor aliases the storage of the entry at p of the ROOT fixture: its sibling row or the entry itself"""
+            lr = leaf_reg.get(tuple(p))
+            if r != root or lr is None or it.regs[lr] is not tdr.get(tuple(p)):
+                return None
+            return rng.choice([sib[lr], sib[lr], lr]) if lr in sib else lr
+
         if k == "set_":
             if not lp:
                 return None
             p = rng.choice(lp)
-            v = fresh(list(tdr.get(p).shape))
+            v = alias_reg(p) if rng.random() < 0.5 else None
+            if v is None:
+                v = fresh(list(tdr.get(p).shape))
             return emit({"i": "set_", "r": r, "p": list(p), "v": v})
         if k == "set_missing":
             # in-place write to a key that does not exist (possibly below a missing node)
@@ -530,7 +583,9 @@ def gen_program(rng, n_hist, force=None):
             mode = rng.choice(["false", "false", "best"])
             if lp and rng.random() < 0.6:
                 p = rng.choice(lp)
-                v = fresh(list(tdr.get(p).shape))
+                v = alias_reg(p) if (mode == "best" and rng.random() < 0.5) else None
+                if v is None:
+                    v = fresh(list(tdr.get(p).shape))
             else:
                 p = rng.choice([("z",), ("n", "z"), ("q", "w")])
                 v = fresh(bsr + [2])
@@ -543,7 +598,7 @@ def gen_program(rng, n_hist, force=None):
                 sel = sel + [rng.choice([("z2",), ("n", "z2")])]
                 o = src_like(r, sel, shape_of=None if False else (lambda p: (bsr if p is None else (list(tdr.get(p).shape) if p in lp else bsr + [2]))))
             else:
-                o = src_like(r, sel)
+                o = src_like(r, sel, alias=rng.random() < 0.5)
             if k == "update_":
                 return emit({"i": "update_", "r": r, "o": o, "via": rng.choice(["update_", "copy_"])})
             return emit({"i": "update", "r": r, "o": o, "clone": rng.random() < 0.3, "inplace": rng.random() < 0.4})
@@ -580,9 +635,13 @@ def gen_program(rng, n_hist, force=None):
             if not ap:
                 return None
             return emit({"i": "get", "r": r, "p": list(rng.choice(ap))})
+        if k == "cindex":
+            return emit_cindex(r, bsr) if bsr else None
         if k in ("view", "gather"):
             if not bsr:
                 return None
+            if k == "gather" and rng.random() < 0.5:
+                return emit_cindex(r, bsr)
             if k == "gather":
                 if rng.random() < 0.3:
                     nbv = it.nb(r)
@@ -593,8 +652,10 @@ def gen_program(rng, n_hist, force=None):
                     return None
                 return emit({"i": "gather", "r": r, "how": ["index", idxj]})
             nbv = it.nb(r)
-            choice = rng.choice(["index", "index", "permute", "transpose", "squeeze", "unsqueeze", "expand", "view", "unflatten",
+            choice = rng.choice(["index", "cindex", "cindex", "permute", "transpose", "squeeze", "unsqueeze", "expand", "view", "unflatten",
                                  "unbind", "split", "chunk"])
+            if choice == "cindex":
+                return emit_cindex(r, bsr)
             d = rng.randrange(len(bsr))
             if choice == "index":
                 idxj, basic = gen_idx(r, adv=False)
@@ -867,7 +928,7 @@ def main(R):
         jobs = []
         forced = [None, None, None] + ["unary_", "binary_", "set_", "update_", "set_at_", "update_at_", "setitem-scalar", "fill_", "zero_",
                                        "set", "update", "view", "gather", "select", "exclude", "shallow", "flatten-keys", "clone", "unary",
-                                       "binary", "contiguous", "set_missing", "del"]
+                                       "binary", "contiguous", "set_missing", "del", "cindex", "cindex", "set_", "update_"]
         for j in range(nprog):
             jobs.append((R.rng.randrange(10 ** 9), R.rng.randint(0, 4 if quick else 10), forced[j % len(forced)]))
         pres = pmap(_program_worker, jobs, chunk=40)
